@@ -306,6 +306,7 @@ def instantiate(unit, drops, extracted):
             loopinv = None
             noiso = False
             sliceeq = False
+            tryinto = False
             dropbody = []
             for p in parts[2:]:
                 if p.startswith('nth='):
@@ -332,6 +333,8 @@ def instantiate(unit, drops, extracted):
                     noiso = True
                 elif p == 'slice-eq':
                     sliceeq = True
+                elif p == 'try-into':
+                    tryinto = True
                 elif p.startswith('inject='):
                     inject = p[len('inject='):]
                 elif p.startswith('drop-body='):
@@ -380,6 +383,16 @@ def instantiate(unit, drops, extracted):
                 item = item[:fm.start()] + fm.group(1) + '#[verifier::loop_isolation(false)]\n' + fm.group(1) + '#[verifier::allow_complex_invariants]\n' + item[fm.start():]
                 kk = 'attribute #[verifier::loop_isolation(false)] added to the function (facts established before the loop stay visible in its body)'
                 drops[kk] = drops.get(kk, 0) + 1
+            if tryinto:
+                item, k = re.subn(r'(\((?:[^()]|\([^()]*\))*\))\.try_into\(\)', r'TryFrom::try_from\1', item)
+                if k:
+                    kk = ('rewrote `(X).try_into()` into `TryFrom::try_from(X)` (the definition of the blanket `impl<T, U: TryFrom<T>> TryInto<U> for T`; '
+                          'vstd does not connect `try_into` with the specification of a foreign `try_from`)')
+                    drops[kk] = drops.get(kk, 0) + k
+            if noderive:
+                item, k = re.subn(r'(?m)^\s*#\[default\]\s*\n', '', item)
+                if k:
+                    drops['#[default] variant markers (only meaningful to the dropped derive(Default))'] = k
             if sliceeq:
                 item, k = re.subn(r'\b(\w+) == (\[(?:0x[0-9A-Fa-f]+|\d+)(?:\s*,\s*(?:0x[0-9A-Fa-f]+|\d+))*\])', r'slice_eq__(\1, &\2)', item)
                 if k:
